@@ -255,6 +255,8 @@ def c20(pid, tier, replay):
                     scen.append({"kind": "build", "id": "C20-build-%04d" % n, "debug": debug,
                                  "ifaces": [{"name": "if%d" % i, "adv": a, "mon": m} for i, (a, m) in enumerate(mix)]})
                     n += 1
+        for j, res in enumerate(("nil", "notexist", "other")):
+            scen.append({"kind": "wtask", "id": "C20-wtask-%d" % j, "res": res})
         # serve() retry loop
         outs = [[], ["closed"], ["other"], ["op", "closed"], ["op", "op", "other"], ["op"] * 39 + ["closed"], ["op"] * 40 + ["closed"],
                 ["op"] * 45]
@@ -270,11 +272,9 @@ def c20(pid, tier, replay):
         inp = os.path.join(tmp, "C20-in-%d.ndjson" % i)
         outp = os.path.join(tmp, "C20-out-%d.ndjson" % i)
         vf.write_ndjson(inp, shards[i])
-        try:
-            vf.go_test(SRV_PKGS, "internal/corerad", "^TestVF_Server$", env={"VF_IN": inp, "VF_OUT": outp}, tmp=vf.mktmp("vf-go-"))
-        except vf.ProductCrash as c:
-            lines = [l for l in c.out.splitlines() if l.startswith("panic:") or l.startswith("fatal error:") or "goroutine" in l][:6]
-            raise vf.Infra("server harness process crashed: %s" % " | ".join(lines))
+        # (a panic or fatal error of the server code kills the test process: vf.ProductCrash, reported by ./check as a
+        # violation; crashes that originate in the harness's own files are vf.Infra)
+        vf.go_test(SRV_PKGS, "internal/corerad", "^TestVF_Server$", env={"VF_IN": inp, "VF_OUT": outp}, tmp=vf.mktmp("vf-go-"))
         return outp
     outs_f = [one(0)]
     if nshards > 1:
